@@ -38,6 +38,8 @@ type stats struct {
 	Select            int            `json:"select_rewritten"`
 	SelectSimple      int            `json:"select_single"`
 	UncontrolledSel   int            `json:"uncontrolled_select"`
+	MapChecks         int            `json:"map_access_checks"`
+	MapChecksSkipped  int            `json:"map_accesses_not_checked"`
 	MapRange          int            `json:"map_range_sorted"`
 	UnsortedMap       int            `json:"unsorted_map"`
 	Lock              int            `json:"lock_calls"`
@@ -63,6 +65,7 @@ func main() {
 	fsPkgsFlag := flag.String("fspkgs", "", "comma separated repo-relative packages that additionally get the disk seam (R8)")
 	harness := flag.String("harness", "", "harness name under sim/harness")
 	extPkgs := flag.String("extpkgs", "", "comma separated third-party import paths to instrument (module cache)")
+	mapPkgsFlag := flag.String("mappkgs", "", "comma separated repo-relative packages whose map accesses are reported to the race tracker")
 	flag.Parse()
 	if *out == "" || *harness == "" {
 		fatal("need -out and -harness")
@@ -107,6 +110,12 @@ func main() {
 			fsPkgs[modPath+"/"+p] = true
 		}
 	}
+	mapPkgs := map[string]bool{}
+	for _, p := range strings.Split(*mapPkgsFlag, ",") {
+		if p = strings.TrimSpace(p); p != "" {
+			mapPkgs[modPath+"/"+p] = true
+		}
+	}
 	// shims
 	for _, p := range pkgs {
 		shim := filepath.Join(*verif, "sim/shims", strings.ReplaceAll(p, "/", "_")+".go")
@@ -130,6 +139,10 @@ func main() {
 		b, err := os.ReadFile(src)
 		must(err)
 		ov[dst] = b
+	}
+	if len(mapPkgs) > 0 {
+		ov[filepath.Join(*repo, "verifsim/simrt/zz_race_build.go")] = []byte("package simrt\n\nfunc init() { RaceBuild = true }\n")
+		rawGenerated[filepath.Join(*repo, "verifsim/simrt/zz_race_build.go")] = "package simrt\n\nfunc init() { RaceBuild = true }\n"
 	}
 	// placeholder reinit files so that shims/harness can reference VerifSimReinit
 	for _, p := range pkgs {
@@ -175,12 +188,18 @@ func main() {
 		overlay[dst] = src
 	}
 	srcOut := filepath.Join(*out, "src")
+	for dst, content := range rawGenerated {
+		outPath := filepath.Join(srcOut, strings.TrimPrefix(dst, "/"))
+		must(os.MkdirAll(filepath.Dir(outPath), 0o755))
+		must(os.WriteFile(outPath, []byte(content), 0o644))
+		overlay[dst] = outPath
+	}
 	isExt := map[string]bool{}
 	for _, e := range ext {
 		isExt[e] = true
 	}
 	for _, p := range loaded {
-		rw := &rewriter{pkg: p, fset: p.Fset, repo: *repo, fs: fsPkgs[p.PkgPath]}
+		rw := &rewriter{pkg: p, fset: p.Fset, repo: *repo, fs: fsPkgs[p.PkgPath], maps: mapPkgs[p.PkgPath], hb: len(mapPkgs) > 0}
 		isHarness := strings.Contains(p.PkgPath, "/verifsim/harness/")
 		var reinitCalls []string
 		for i, f := range p.Syntax {
@@ -283,6 +302,7 @@ func main() {
 	must(os.WriteFile(filepath.Join(*out, "simify-stats.json"), sj, 0o644))
 }
 
+var rawGenerated = map[string]string{}
 var extCopied = map[string]bool{}
 var extReplace []string
 
@@ -353,6 +373,8 @@ type rewriter struct {
 	fname  string
 	rel    string
 	fs     bool
+	maps   bool // report map accesses of this package to the race tracker
+	hb     bool // add the happens-before calls around channel operations
 	usedRT bool
 	usedFS bool
 	tmpN   int
@@ -362,6 +384,7 @@ type rewriter struct {
 	noWrap   map[ast.Node]bool // calls directly under defer/go
 	reinitFn map[string]int    // reinit function name -> InitOrder index
 	labelPrologue map[*ast.LabeledStmt][]ast.Stmt
+	mapChecks     map[ast.Stmt][]ast.Stmt // race-tracker calls to insert before a statement
 }
 
 func (r *rewriter) site(n ast.Node, kind string) *ast.BasicLit {
@@ -409,6 +432,10 @@ func (r *rewriter) rewriteFile() {
 	r.twoValue = map[ast.Node]bool{}
 	r.noWrap = map[ast.Node]bool{}
 	r.labelPrologue = map[*ast.LabeledStmt][]ast.Stmt{}
+	r.mapChecks = map[ast.Stmt][]ast.Stmt{}
+	if r.maps {
+		r.collectMapAccesses()
+	}
 	astutil.Apply(r.file, r.pre, r.post)
 }
 
@@ -459,6 +486,17 @@ func unparen(e ast.Expr) ast.Expr {
 }
 
 func (r *rewriter) post(c *astutil.Cursor) bool {
+	if stn, ok := c.Node().(ast.Stmt); ok {
+		if chk := r.mapChecks[stn]; chk != nil {
+			delete(r.mapChecks, stn)
+			if c.Index() >= 0 {
+				for _, x := range chk {
+					c.InsertBefore(x)
+					st.MapChecks++
+				}
+			}
+		}
+	}
 	switch n := c.Node().(type) {
 	case *ast.GoStmt:
 		r.rewriteGo(c, n)
@@ -476,6 +514,18 @@ func (r *rewriter) post(c *astutil.Cursor) bool {
 			switch c.Parent().(type) {
 			case *ast.BlockStmt, *ast.CaseClause, *ast.CommClause, *ast.LabeledStmt:
 				st.Send++
+				if r.hb {
+					// { c := ch; ChanRel(c, true); c <- v; Yield; ChanAcq(c, true) }
+					chv := r.tmp("c")
+					c.Replace(&ast.BlockStmt{List: []ast.Stmt{
+						&ast.AssignStmt{Lhs: []ast.Expr{chv}, Tok: token.DEFINE, Rhs: []ast.Expr{n.Chan}},
+						&ast.ExprStmt{X: r.rtCall("ChanRel", chv, ast.NewIdent("true"))},
+						&ast.SendStmt{Chan: chv, Value: n.Value},
+						&ast.ExprStmt{X: r.rtCall("Yield", r.site(n, "send"))},
+						&ast.ExprStmt{X: r.rtCall("ChanAcq", chv, ast.NewIdent("true"))},
+					}})
+					return true
+				}
 				c.Replace(&ast.BlockStmt{List: []ast.Stmt{n, &ast.ExprStmt{X: r.rtCall("Yield", r.site(n, "send"))}}})
 			}
 		}
@@ -670,11 +720,41 @@ func (r *rewriter) rewriteSelect(c *astutil.Cursor, n *ast.SelectStmt) {
 	}
 	if len(comm) == 1 {
 		st.SelectSimple++
+		var relStmt, acqStmt ast.Stmt
+		if r.hb {
+			var chx ast.Expr
+			isSend := false
+			switch s := comm[0].Comm.(type) {
+			case *ast.SendStmt:
+				chx, isSend = s.Chan, true
+			case *ast.ExprStmt:
+				chx = unparen(s.X).(*ast.UnaryExpr).X
+			case *ast.AssignStmt:
+				chx = unparen(s.Rhs[0]).(*ast.UnaryExpr).X
+			}
+			sendLit := ast.NewIdent(fmt.Sprint(isSend))
+			if chx != nil && simpleExpr(chx) {
+				relStmt = &ast.ExprStmt{X: r.rtCall("ChanRel", chx, sendLit)}
+				acqStmt = &ast.ExprStmt{X: r.rtCall("ChanAcq", chx, sendLit)}
+			} else {
+				relStmt = &ast.ExprStmt{X: r.rtCall("Barrier")}
+				acqStmt = &ast.ExprStmt{X: r.rtCall("Barrier")}
+			}
+		}
 		if def != nil {
 			// non-blocking single op: a visibility point, yield before
 			c.InsertBefore(&ast.ExprStmt{X: r.rtCall("Yield", r.site(n, "selnb"))})
+			if relStmt != nil {
+				c.InsertBefore(relStmt)
+				comm[0].Body = append([]ast.Stmt{acqStmt}, comm[0].Body...)
+			}
 		} else {
-			comm[0].Body = append([]ast.Stmt{&ast.ExprStmt{X: r.rtCall("Yield", r.site(n, "sel1"))}}, comm[0].Body...)
+			head := []ast.Stmt{&ast.ExprStmt{X: r.rtCall("Yield", r.site(n, "sel1"))}}
+			if relStmt != nil {
+				c.InsertBefore(relStmt)
+				head = append(head, acqStmt)
+			}
+			comm[0].Body = append(head, comm[0].Body...)
 		}
 		return
 	}
@@ -759,6 +839,11 @@ func (r *rewriter) rewriteSelect(c *astutil.Cursor, n *ast.SelectStmt) {
 			&ast.IfStmt{Cond: &ast.BinaryExpr{X: selv, Op: token.GEQ, Y: intLit(0)}, Body: &ast.BlockStmt{List: []ast.Stmt{&ast.BranchStmt{Tok: token.BREAK}}}},
 		}},
 	}
+	if r.hb {
+		for _, ci := range infos {
+			stmts = append(stmts, &ast.ExprStmt{X: r.rtCall("ChanRel", ci.ch, ast.NewIdent(fmt.Sprint(ci.isSend)))})
+		}
+	}
 	stmts = append(stmts, probeLoop)
 	// fallback
 	var fb ast.Stmt
@@ -780,6 +865,9 @@ func (r *rewriter) rewriteSelect(c *astutil.Cursor, n *ast.SelectStmt) {
 	// dispatch
 	var dcases []ast.Stmt
 	for i, cc := range comm {
+		if r.hb {
+			infos[i].bodyHead = append([]ast.Stmt{&ast.ExprStmt{X: r.rtCall("ChanAcq", infos[i].ch, ast.NewIdent(fmt.Sprint(infos[i].isSend)))}}, infos[i].bodyHead...)
+		}
 		body := append(infos[i].bodyHead, cc.Body...)
 		dcases = append(dcases, &ast.CaseClause{List: []ast.Expr{intLit(i)}, Body: body})
 	}
